@@ -7,10 +7,12 @@ Execution outcome and receipts (C28). Transcribed from
   fuel-vm/src/state.rs                         StateTransition::should_revert
   fuel-vm/src/memory_client.rs                 MemoryClient::transact (commit / revert)
   fuel-vm/src/storage/memory.rs                MemoryStorage::{commit, revert}
+  fuel-vm/src/interpreter/initialization.rs    init_inner (what a reused interpreter resets before each transaction)
 The instruction semantics are abstract: a program run is a list of events saying which receipt an
 instruction tries to push and how it ends (proceed / return / revert / fault).
 -/
 import FuelVerif.Basic.Util
+import FuelVerif.Gen.Outcome
 namespace FuelVerif.Outcome
 open FuelVerif
 
@@ -149,6 +151,53 @@ def runEvents (H : Bytes → Bytes) (sr : Final → Rcpt) (tmr : Rcpt) (rc : RCt
     | .error .tooManyReceipts => panicPath H rc tmr sr
     | .error .ctxFull => .error .vmError
   | .fault p :: _ => panicPath H rc p sr
+
+/-! ### a reused interpreter (`MemoryClient` / `Transactor` run one transaction after another on the same `Interpreter`) -/
+
+/-- what the interpreter still holds when the next transaction arrives: its call-frame stack (`frames`; `run_program`
+    only looks at `!self.frames.is_empty()`, so the length is what matters) and its receipts context -/
+structure Carry where
+  depth : Nat := 0
+  rc : RCtx := RCtx.empty
+  deriving Repr, Inhabited
+
+/-- initialization.rs `init_inner` (called by `init_script` at the start of every `transact`): `self.frames.clear();` and
+    `self.receipts.clear();` — each present in the Rust text iff the generated flag says so -/
+def initInner (c : Carry) : Carry :=
+  { depth := if Gen.initClearsFrames then 0 else c.depth,
+    rc := if Gen.initClearsReceipts then RCtx.empty else c.rc }
+
+/-- call frames left behind when the run ends: a run that ends inside a call (RVRT, a panic, out of gas) does not
+    unwind; RET pops its frame before pushing its receipt, CALL pushes the frame after its receipt -/
+def depthAfter (H : Bytes → Bytes) (rc : RCtx) (depth : Nat) : List Ev → Nat
+  | [] => depth
+  | .quiet :: evs => depthAfter H rc depth evs
+  | .emit r :: evs =>
+    match rc.push H r with
+    | .ok rc' => depthAfter H rc' depth evs
+    | .error _ => depth
+  | .call r :: evs =>
+    match rc.push H r with
+    | .ok rc' => depthAfter H rc' (depth + 1) evs
+    | .error _ => depth
+  | .ret r :: evs =>
+    match rc.push H r with
+    | .ok rc' => if depth = 0 then 0 else depthAfter H rc' (depth - 1) evs
+    | .error _ => depth - 1
+  | .rvrt _ :: _ => depth
+  | .fault _ :: _ => depth
+
+/-- one `transact` on an interpreter in state `c`: `init_inner`, then `run_program`; returns the result and what is carried on -/
+def transactOn (H : Bytes → Bytes) (sr : Final → Rcpt) (tmr : Rcpt) (c : Carry) (evs : List Ev) :
+    Except RunErr Outcome × Carry :=
+  let c0 := initInner c
+  let r := runEvents H sr tmr c0.rc c0.depth evs
+  (r, { depth := depthAfter H c0.rc c0.depth evs, rc := match r with | .ok o => o.rc | .error _ => c0.rc })
+
+/-- a sequence of transactions on one interpreter -/
+def runSeq (H : Bytes → Bytes) (sr : Final → Rcpt) (tmr : Rcpt) : Carry → List (List Ev) → List (Except RunErr Outcome)
+  | _, [] => []
+  | c, evs :: rest => (transactOn H sr tmr c evs).1 :: runSeq H sr tmr (transactOn H sr tmr c evs).2 rest
 
 /-- receipts an instruction can push and then carry on: not the two trailer kinds, not Revert -/
 def Rcpt.quiet (r : Rcpt) : Prop := r.kind ≠ .scriptResult ∧ r.kind ≠ .panic ∧ r.kind ≠ .revert
